@@ -114,6 +114,20 @@ LEGACY_JSON_FILE_TYPES = [
 """List of json file types that's different in older version"""
 
 
+def _join_run(prefix: str, command: str) -> str:
+    """
+    Join a generated `execute ... run ` prefix with the command it runs,
+    merging `run execute ` at the junction only (never inside the command's own text)
+
+    :param prefix: String ending with `run `
+    :param command: A minecraft command
+    :return: A minecraft command
+    """
+    if prefix.endswith("run ") and command.startswith("execute "):
+        return prefix[: -len("run ")] + command[len("execute ") :]
+    return prefix + command
+
+
 class Lexer:
     """
     Lexical Analyizer
@@ -1006,8 +1020,11 @@ class Lexer:
             del outputs[-1]
             last_output = self.datapack.add_private_function(
                 name,
-                f"{conditions[-1]} {self.datapack.add_arrow_function(name, command_tokens[-1], tokenizer, prefix=prefix)}".replace(
-                    "run execute ", ""
+                _join_run(
+                    f"{conditions[-1]} ",
+                    self.datapack.add_arrow_function(
+                        name, command_tokens[-1], tokenizer, prefix=prefix
+                    ),
                 ),
             )
         else:  # 'else'
@@ -1025,7 +1042,7 @@ class Lexer:
                 name, else_, tokenizer, prefix=prefix
             )
 
-        outputs[-1][-1] = (outputs[-1][-1] + last_output).replace("run execute ", "")
+        outputs[-1][-1] = _join_run(outputs[-1][-1], last_output)
         if len(outputs) > 1:
             count = self.datapack.get_count(name)
             self.datapack.add_private_function(name, "\n".join(outputs[-1]), count)
